@@ -29,6 +29,7 @@ class Contract:
     mutants: list = dataclasses.field(default_factory=list)    # (old text, new text) must be killed
     consts: dict = dataclasses.field(default_factory=dict)     # module-level constants
     stmt: str = ''                   # statement contract: name assigned inside the function
+    block: tuple = ()                # block contract: (first assigned name, last assigned name)
     custom: object = None            # callable(verifier, contract, fdef, consts) -> obligations
     tag: str = ''                    # distinguishes several contracts on one function
 
@@ -61,7 +62,8 @@ class Registry:
         self.bases = {}         # class name -> [base names]
 
     def add(self, c):
-        key = c.target + (f'@{c.tag or c.stmt}' if (c.tag or c.stmt) else '')
+        sub = c.tag or c.stmt or ('-'.join(c.block) if c.block else '')
+        key = c.target + (f'@{sub}' if sub else '')
         c.key = key
         self.contracts[key] = c
         return c
